@@ -282,6 +282,25 @@ Lemma old_guarded_ord_answered_false :
   gd_cmp_iig no_heap CLt v_null (v_int 1) = RErr ETypeError.
 Proof. vm_compute. repeat split; reflexivity. Qed.
 
+(* the i64 intermediate results of the int kernels on 48-bit operands stay inside i64: the
+   non-wrapping Rust operators (unary -, /, %) cannot overflow (no arithmetic-overflow panic in
+   builds with overflow checks); + - * use wrapping_* in the code *)
+Lemma int_ops_stay_in_i64 (l r : Z) :
+  in48 l -> in48 r ->
+  is_i64 (- l) = true /\ is_i64 (l + r) = true /\ is_i64 (l - r) = true /\
+  (r <> 0%Z -> is_i64 (Z.quot l r) = true /\ is_i64 (Z.rem l r) = true).
+Proof. unfold in48, is_i64. intros Hl Hr. repeat split; try lia. Qed.
+
+Lemma as_int_in48 (w : N) (z : Z) : as_int w = Some z -> in48 z.
+Proof.
+  rewrite as_int_view. destruct (is_int w); [|discriminate]. intro H. injection H as <-.
+  unfold as_int_unchecked, in48.
+  assert (Hp : N.land w PAYLOAD_MASK < 281474976710656).
+  { assert (EP : PAYLOAD_MASK = N.ones 48) by (vm_compute; reflexivity).
+    rewrite EP, N.land_ones. change (2^48) with 281474976710656. lia. }
+  rewrite (sext48_spec _ Hp). destruct (N.ltb_spec (N.land w PAYLOAD_MASK) 140737488355328); lia.
+Qed.
+
 Lemma dispatch_numbers_check : dispatch_numbers_ok = true.
 Proof. vm_compute. reflexivity. Qed.
 
